@@ -323,6 +323,25 @@ register_b09(
     assumptions=["operand values: the oracle compares the operand *texts* the converter writes for the same expression in an assignment"],
 )
 
+import suite_expr  # noqa: E402
+
+PROPS["C01"] = {
+    "lean": ["CocoVerif.Props.C01"],
+    "lean_extra": B09_LEAN_EXTRA + ["CocoVerif.Spec.Ladder"],
+    "suites": [{"name": "expr", "relevant": lambda c: True, "oracle": suite_expr.oracle, "classify": suite_expr.classify}],
+    "search": None,
+    "rule": "every expression shape with up to 2 (thorough: 3) binary operators from + - * / ^ over the leaves A, B, 2, 3 with unary "
+            "minus and parentheses at every position (exhaustive), 60 probes for AND/OR/NOT, comparisons, literal spellings "
+            "(decimal, exponent, hex below and above $8000, blanks inside), signs, and random larger numeric / string / condition "
+            "expressions with nested built-in and convertible functions, each in the contexts assignment, PRINT item, FOR bound, "
+            "array index, ON selector, IF condition; the source is read with Color BASIC's precedence table and the real output "
+            "with BASIC09's (hoisted RUN wrappers executed first) and both are evaluated on four environments; "
+            "distinct = distinct statement",
+    "trusted": B09_TRUSTED + ["harness/exprsem.py: Color BASIC's and BASIC09's precedence tables and the typing of BOOLEAN, written from "
+                              "the manuals; both evaluators share every arithmetic primitive so only the operator trees can differ"],
+    "assumptions": ["values for which Color BASIC raises an error (division by zero, overflow, illegal function call) are not compared"],
+}
+
 import suite_names  # noqa: E402
 
 PROPS["C09"] = {
@@ -424,6 +443,10 @@ def replay_witness(f):
         case = {"fmt": parts[1], "kind": w.get("kind", "valid"), "req": w["request"], "data": unhex(parts[-1])}
         case.update(w.get("case", {}))
         return OI.ORACLES[w.get("oracle", f["property"])](case, impl)
+    if isinstance(w, dict) and w.get("type") == "expr":
+        import impl_b09
+        case = {"text": w["text"], "ctx": w["ctx"], "ekind": w["ekind"], "expr": w["expr"], "opts": suite_expr.OPTS}
+        return suite_expr.oracle(case, impl_b09.convert(w["text"], suite_expr.OPTS))
     if isinstance(w, dict) and w.get("type") == "form":
         res = suite_forms.run("quick")
         for c, i in zip(res["cases"], res["impl"]):
